@@ -480,6 +480,9 @@ def run(ck, facts, tier):
     rule_admission(ck, facts)
     rule_alloc_grow(ck, facts)
     rule_value_aborts(ck, facts)
+    from . import prims
+
+    prims.rule_unit_merge(ck, facts, "C01.unit-merge")
     guards.run(ck, facts, "C03.guarded-index", ["mimium_lang", "state_tree", "mimium_scheduler", "mimium_audiodriver"])
     c03_unsafe.run(ck, facts, cg, tier)
     ck.not_decided("absence of index/overflow/division panics (compiler-inserted asserts are counted in the evidence only)")
